@@ -736,6 +736,9 @@ inductive Ev
   /-- the same, sent to channel `ch` (addressed to the bot) -/
   | cmdIn (ch pfx : Str) (c : Cmd)
   | order (uo : List (Nat × List Str)) (co : List (Str × List Str))
+  /-- more than `supybot.databases.users.timeoutIdentification` seconds pass (the setting is not
+  zero): every login made so far has expired (`IrcUser.checkHostmask` drops them when it next looks) -/
+  | expire
 deriving Repr
 
 def stepEv (cfg : Cfg) (st : St) : Ev → St
@@ -745,6 +748,7 @@ def stepEv (cfg : Cfg) (st : St) : Ev → St
      | some c' => (step cfg st pfx c' (some ch)).1
      | none => st)
   | .order uo co => st.fileOrder uo co
+  | .expire => { st with auth := [] }
 
 def runEv (cfg : Cfg) (st : St) : List Ev → St
   | [] => st
